@@ -215,6 +215,17 @@ impl EncodingFile {
         // Validate header
         header.validate()?;
 
+        // The counts and sizes in the header are not trusted: everything they
+        // describe must be present in the input before buffers are sized from
+        // them (computed in u64 so that it cannot wrap on 32-bit targets).
+        let declared_size = 22
+            + u64::from(header.espec_block_size)
+            + u64::from(header.ckey_page_count) * (32 + header.ckey_page_size() as u64)
+            + u64::from(header.ekey_page_count) * (32 + header.ekey_page_size() as u64);
+        if (data.len() as u64) < declared_size {
+            return Err(EncodingError::Io(std::io::ErrorKind::UnexpectedEof.into()));
+        }
+
         // Read ESpec table (comes right after header per CASC specification)
         let mut espec_data = vec![0u8; header.espec_block_size as usize];
         cursor.read_exact(&mut espec_data)?;
@@ -621,5 +632,27 @@ impl crate::CascFormat for EncodingFile {
     fn build(&self) -> Result<Vec<u8>, Box<dyn std::error::Error>> {
         self.build()
             .map_err(|e| Box::new(e) as Box<dyn std::error::Error>)
+    }
+}
+
+#[cfg(test)]
+#[allow(clippy::expect_used, clippy::unwrap_used)]
+mod tests {
+    use super::*;
+
+    #[test]
+    fn test_header_counts_beyond_input_rejected() {
+        // A valid 22-byte header that declares far more than the input holds
+        // must be an error, not a multi-gigabyte allocation.
+        let mut header = EncodingHeader::new();
+        header.ckey_page_count = u32::MAX;
+        header.ekey_page_count = u32::MAX;
+        header.espec_block_size = u32::MAX;
+
+        let mut data = Vec::new();
+        header
+            .write_options(&mut Cursor::new(&mut data), binrw::Endian::Big, ())
+            .expect("header should serialize");
+        assert!(EncodingFile::parse(&data).is_err());
     }
 }
